@@ -1,6 +1,7 @@
 package graphfam
 
 import (
+	"github.com/EliCDavis/polyform/generator/schema"
 	"bufio"
 	"bytes"
 	"crypto/sha256"
@@ -527,7 +528,24 @@ func reloadApp(data []byte) (app *generator.App, ok bool) {
 }
 
 func runGE(enc *json.Encoder, h int, hist GEHistory, stride int) {
-	app := &generator.App{Name: "verif", Version: "1", Description: "graph edit replay"}
+	// the header of the application (name, version, description, authors, web scene) is part of the saved file:
+	// every combination of present / absent fields, chosen by the history's number
+	app := &generator.App{}
+	if h%2 == 0 {
+		app.Name = "verif"
+	}
+	if (h/2)%2 == 0 {
+		app.Version = "1"
+	}
+	if (h/4)%2 == 0 {
+		app.Description = "graph edit replay"
+	}
+	if (h/8)%2 == 1 {
+		app.Authors = []schema.Author{{Name: "a", ContactInfo: []schema.AuthorContact{{Medium: "mail", Value: "a@b"}}}, {Name: "b"}}
+	}
+	if (h/16)%2 == 1 {
+		app.WebScene = &schema.WebScene{AntiAlias: true, XrEnabled: h%3 == 0}
+	}
 	app.VerifGraph()
 	_ = enc.Encode(geLine{K: "reset", H: h, Orig: emptyProj(), Reload: emptyProj(), H1: []int{}, H2: []int{}})
 	for i, st := range hist.Steps {
